@@ -7,6 +7,7 @@ mod extract;
 mod grammar;
 mod merge;
 mod numbers;
+mod probe;
 mod replay;
 mod rx;
 mod sortcases;
@@ -99,6 +100,9 @@ fn main() {
         }
         Some("merge") => {
             println!("{}", merge::run(&arg(&args, "--in").expect("--in"), &arg(&args, "--out").expect("--out")));
+        }
+        Some("probe") => {
+            println!("{}", probe::run());
         }
         Some("histories") => {
             let input = arg(&args, "--in").expect("--in");
